@@ -24,6 +24,12 @@ CLAIMED = {
    design_ref="DESIGN.md §7.4 C06",
    note="NARROW: reached through a cfg(kani) constructor hook after the character scan; Address::from_str/parse_with_params, base58, Display, network exclusivity and text round trip are NOT decided (str::rfind diverges in CBMC)." + TRUST,
    technique=TECH),
+ "C07": dict(
+   category="model_checking",
+   text="Per-value PSET codecs only: for every accepted byte string (symbolic slice one byte longer than the maximal encoding) of u8/u32/u64, Sequence, LockTime, 32-byte arrays, PsbtSighashType, Tweak, bitcoin::PublicKey (33 and 65 bytes), XOnlyPublicKey, SchnorrSig, (XOnlyPublicKey, TapLeafHash), Generator, PedersenCommitment: re-encoding decodes to an equal value and is a fixpoint (identical bytes where the type has one encoding); value side for public keys in both compressed and uncompressed form.",
+   design_ref="DESIGN.md §7.4 C07",
+   note="VERY NARROW: raw key/pair framing, map decoders (duplicate keys, mandatory fields, counts), whole-PSET round trip/fixpoint, base64, TapTree, ELIP-100/102 are NOT decided (BTreeMap-backed maps and whole-PSET decoding are out of CBMC's reach); KeySource and (Script, LeafVersion) ran out of memory. libsecp contract models." + TRUST,
+   technique=TECH),
  "C08": dict(
    category="model_checking",
    text="PartiallySignedTransaction::locktime() compared with a reference written from BIP370 for every assignment of {none,time,height,both} requirements with arbitrary values to n = 0..3 inputs (n per shard) and every fallback; also proves the two unreachable!() arms unreachable. Found the height-vs-time preference defect (fixed).",
@@ -42,6 +48,12 @@ CLAIMED = {
    design_ref="DESIGN.md §2 C11",
    note="JSON contract-hash clause not decided (serde_json out of reach). extract_tx(from_tx(tx)) leg not decided. Index 0x3fffffff with both flags excluded (format-inherent ambiguity)." + TRUST,
    technique=TECH + "; SHA-256 compression as uninterpreted function"),
+ "C12": dict(
+   category="model_checking",
+   text="Transaction::{size, weight, vsize, discount_weight, discount_vsize, has_witness} compared with the serialized-size arithmetic of the Elements transaction layout, with script, witness-item and proof lengths SYMBOLIC over 0..=0x10001 (every compact-size boundary at once) for 1-input/1-output transactions in four shapes: no witness, output witness with confidential value+nonce (discount terms), explicit-nonce/null variants (no discount), input witness with pegin + issuance.",
+   design_ref="DESIGN.md §7.4 C12",
+   note="The oracle is the size arithmetic of the layout, not the encoder run into a counting writer (that does not finish in CBMC); that the encoder emits this layout is decided component-wise in C01. Block::size/weight (serializes the header), more than one input/output and vector counts above 1 are outside." + TRUST,
+   technique=TECH),
  "C14": dict(
    category="model_checking",
    text="First-present-wins rule of Input::merge / Output::merge on scalar Option fields, lock-time maxima, and the Global::merge flag/version kernels incl. commutativity of the result, for all field presence/value combinations, through cfg(kani) hooks onto the crate-private merge functions. Found that Input::merge dropped sighash_type and sequence (fixed).",
@@ -78,11 +90,9 @@ NOT_APPLICABLE = {
  "C02": "the ids hash whole transactions / headers by streaming consensus_encode into a SHA-256 engine; in CBMC every `?` on Result<_, encode::Error> is an undecided branch (layout decoding of that enum is not constant-folded), so all buffer offsets become symbolic and even a 1-input/1-output txid harness exhausts 16 GB (harnesses kept unregistered in harness/src/c02.rs; DESIGN §7.1, §7.4)",
  "C04": "conclusion depends on libsecp256k1-zkp rangeproof sign/rewind, surjection proofs, ECDH and 256-bit scalar arithmetic behind FFI; cannot be encoded for a SAT/SMT solver, and with those calls stubbed the property is no longer about the real system",
  "C05": "verify_tx_amt_proofs iterates Vec<TxOut>/Vec<TxIn> and calls libsecp verification; the recording-oracle harness of the design was not built: the enabling pieces (whole-transaction values with nested heap fields under symbolic control flow) proved out of CBMC's reach in C01/C02/C12 probes (DESIGN §7.4)",
- "C07": "PSET maps (a dozen BTreeMaps per map, > 1 KB structs) need 15-50 GB in CBMC and BTreeMap iteration does not unwind (symbolic tree height); whole-PSET decoding was probed out of reach in the design phase; the per-value codecs were not built for lack of time (DESIGN §7.4)",
  "C09": "same as C04, plus HashMap<usize,_> with RandomState in the API and curve-order scalar arithmetic through FFI",
- "C12": "size/weight harnesses (harness/src/c12.rs) compare scaled_size with the real encoder's byte count into a counting writer; encoding a whole transaction value runs into the undecided `?` discriminants (DESIGN §7.1) and did not finish within the probe caps; kept unregistered",
  "C13": "every taproot/segwit query hashes all inputs/outputs through consensus_encode into SHA engines (see C02); even the error-only obligation (PrevoutKind) explores the hashing path because Result<_, sighash::Error> is undecided at the `?` (DESIGN §7.1); harnesses kept unregistered in harness/src/c03.rs",
- "C15": "taproot builder/spend-info use BTreeMap/BTreeSet/BinaryHeap over heap nodes plus tagged hashing of scripts through consensus_encode; not built after the C14/C19 probes showed both ingredients out of reach (DESIGN §7.4)",
+ "C15": "kani-compiler 0.68 aborts with an internal compiler error (intrinsics.rs:243, compare_bytes) on the lexicographic byte-array comparison used by the sorted-pair branch hashing (ControlBlock::verify_taproot_commitment, NodeInfo::combine); builder/spend-info additionally use BTreeMap/BTreeSet/BinaryHeap whose iteration does not unwind in CBMC; harness kept unregistered in harness/src/c15.rs (DESIGN §7.4)",
  "C20": "serde_json/serde_cbor and core::fmt string machinery over heap-built values are outside bounded model checking reach; the finite remainder (6-8 enum values) is trivial for a solver",
 }
 
